@@ -233,6 +233,35 @@ class Tables:
         return self.toks.setdefault(repr(v), len(self.toks))
 
 
+NUM_TYPES = {"float": float, "int": int, "float64": np.float64, "float32": np.float32, "int64": np.int64,
+             "int32": np.int32}
+INT_TYPES = ("int", "int64", "int32")
+
+
+def cast_value(v, dt):
+    """hand a generated number over as the given Python / numpy scalar type (exact value: float(np.float32(x)))"""
+    if dt is None or isinstance(v, bool) or not isinstance(v, (int, float)):
+        return v
+    if dt in INT_TYPES:
+        if isinstance(v, float) and not (math.isfinite(v) and v.is_integer()):
+            return v
+        return NUM_TYPES[dt](int(v))
+    return NUM_TYPES[dt](v)
+
+
+def cast_result(res, dtypes):
+    return {k: cast_value(v, (dtypes or {}).get(k)) for k, v in res.items()}
+
+
+def gen_dtypes(rng, names):
+    return {n: rng.choice([None, None, "float", "int", "float64", "float32", "int64", "int32"])
+            for n in list(names) + ["aux"]}
+
+
+def is_f32(v):
+    return isinstance(v, np.floating) and v.dtype == np.float32
+
+
 def plain(x):
     return x.item() if isinstance(x, np.generic) else x
 
@@ -363,6 +392,7 @@ def cells_agree(a, present, b):
     b = plain(b)
     if not present or a is None or isnan(a):
         return b is None or isnan(b) or b is pd.NA
+    rtol = 1e-6 if is_f32(a) else 1e-12  # last digits of the text of a float32 / float64
     a = plain(a)
     if isinstance(a, numbers.Number):
         if isinstance(b, str):
@@ -375,7 +405,7 @@ def cells_agree(a, present, b):
         a, b = float(a), float(b)
         if math.isinf(a) or math.isinf(b):
             return a == b
-        return abs(a - b) <= 1e-12 * max(1.0, abs(a))
+        return abs(a - b) <= rtol * max(1.0, abs(a))
     return str(a) == b
 
 
@@ -460,7 +490,8 @@ def check_one_stats(who, results, obs, conv="first"):
             elif math.isinf(e) or math.isinf(o):
                 ok = e == o
             elif name == "sum":
-                ok = abs(o - e) <= 1e-9 * (1.0 + sum(abs(float(r[k])) for r in results
+                rtol = 1e-5 if any(is_f32(r.get(k)) for r in results) else 1e-9  # np.float32 sums stay float32
+                ok = abs(o - e) <= rtol * (1.0 + sum(abs(float(r[k])) for r in results
                                                      if k in r and isinstance(plain(r[k]), numbers.Number)
                                                      and not isnan(r[k]) and not math.isinf(float(r[k]))))
             else:
@@ -722,9 +753,12 @@ def build_case(tb, wallclock, events, rows, history, overall, per_trial, backend
                 for ids, res in history])
     # tolerance for float sums: 1e-9 relative to the total magnitude fed
     mag = 1.0
+    rtol = 1e-9
     for _, res in history:
         for _, r in res:
             for v in r.values():
+                if is_f32(v):
+                    rtol = 1e-5  # sums of np.float32 values are accumulated in float32
                 v = plain(v)
                 if isinstance(v, numbers.Number) and not isnan(v) and not math.isinf(float(v)):
                     mag += abs(float(v))
@@ -742,7 +776,7 @@ def build_case(tb, wallclock, events, rows, history, overall, per_trial, backend
     return ("{| c_wallclock := %s;\n c_events := %s;\n c_rows := %s;\n c_history := %s;\n c_tol := %s;\n"
             " c_overall := %s;\n c_trials := %s;\n c_backend := %s;\n c_bq := %s;\n c_tq := %s;\n c_table := %s;\n"
             " c_eq := %s;\n c_sq := %s;\n c_disk := %s;\n c_split := %s |}" % (
-                blit(wallclock), lst(ev_terms), lst([dict_term(tb, r) for r in rows]), hist, q(1e-9 * mag),
+                blit(wallclock), lst(ev_terms), lst([dict_term(tb, r) for r in rows]), hist, q(rtol * mag),
                 istats_term(tb, overall),
                 lst(["(%s, %s)" % (zlit(t), istats_term(tb, s)) for t, s in per_trial.items()]),
                 lst(["(%s, %s)" % (zlit(t), cfg_term(tb, c)) for t, c in backend_cfgs.items()]),
@@ -913,7 +947,7 @@ def gen_seq_spec(rng):
         for t, d in done.items():
             state[t] = "paused" if d == "PAUSE" else "done"
         ops.append(dict(status=status, results=results))
-    return dict(names=names, mode=mode, hps=hps, wallclock=rng.random() < 0.8,
+    return dict(names=names, mode=mode, hps=hps, wallclock=rng.random() < 0.8, dtypes=gen_dtypes(rng, names),
                 rui=rng.choice([-1, -1, 0, 0.5, 10.0]), ops=ops, styles=styles)
 
 
@@ -930,7 +964,10 @@ def run_seq(ctx, spec, workdir):
     backend_cfgs = {}
     prefix_ok = True
     with quiet():
-        for op in spec["ops"]:
+        ops = [dict(status=op["status"],
+                    results=[[t, cast_result(res, spec.get("dtypes")), d, st] for t, res, d, st in op["results"]])
+               for op in spec["ops"]]
+        for op in ops:
             cfg_now = {t: c for t, _, c in op["status"]}
             backend_cfgs.update({t: dict(c) for t, c in cfg_now.items()})
             for t, res, decision, status in op["results"]:
@@ -1000,9 +1037,11 @@ def make_run_classes():
         (chunks, cycled); it stops at its script's end or at config[limit_attr] epochs; then it is
         Completed, or Failed if outcomes[i] == 'fail'. Paused trials continue where they stopped."""
 
-        def __init__(self, scripts, chunks, outcomes, limit_attr=None):
+        def __init__(self, scripts, chunks, outcomes, limit_attr=None, faults=None):
             super().__init__()
             self.scripts, self.chunks, self.outcomes, self.limit_attr = scripts, chunks, outcomes, limit_attr
+            self.faults = dict(faults or {})  # injected faults: stop_all raises; the poll_at-th poll raises
+            self.calls = 0
             self.poll = 0
             self.stamp = 0.0
             self.limit = {}
@@ -1013,7 +1052,15 @@ def make_run_classes():
                 lim = min(lim, int(config[self.limit_attr]))
             self.limit[trial_id] = lim
 
+        def stop_all(self):
+            if self.faults.get("stop_all"):
+                raise ConnectionError("injected fault: backend unreachable in stop_all")
+            super().stop_all()
+
         def _all_trial_results(self, trial_ids):
+            self.calls += 1
+            if self.faults.get("poll_at") == self.calls:
+                raise ConnectionError("injected fault: backend unreachable in poll %d" % self.calls)
             out = []
             for tid in trial_ids:
                 tr = self._trial_dict[tid]
@@ -1112,12 +1159,16 @@ def make_run_classes():
     class RecordingScheduler(TrialScheduler):
         """delegates everything to the real scheduler; records what is delivered to it and its decisions"""
 
-        def __init__(self, inner):
+        def __init__(self, inner, suggest_fault_at=None):
             super().__init__(config_space=inner.config_space)
             self.inner = inner
             self.delivered = []
+            self.suggest_fault_at, self.n_suggest_calls = suggest_fault_at, 0
 
         def suggest(self, trial_id):
+            self.n_suggest_calls += 1
+            if self.suggest_fault_at == self.n_suggest_calls:
+                raise RuntimeError("injected fault: scheduler failed in suggest call %d" % self.n_suggest_calls)
             return self.inner.suggest(trial_id)
 
         def on_trial_add(self, trial):
@@ -1232,6 +1283,11 @@ def gen_run_spec(rng, idx):
                 chunks=[rng.randint(0, 3) for _ in range(rng.randint(1, 5))], outcomes=outcomes,
                 n_workers=rng.randint(1, 3), seed=rng.randint(0, 10 ** 6), rui=rng.choice([-1, 0, 10.0]),
                 max_results=rng.randint(3, 25), max_loops=rng.randint(10, 60))
+    spec["dtypes"] = gen_dtypes(rng, names)
+    if rng.random() < 0.4:  # injected faults: the run ends with an exception, the table must be complete anyway
+        spec["faults"] = rng.choice([dict(stop_all=True), dict(stop_all=True), dict(suggest_at=rng.randint(2, 6)),
+                                     dict(poll_at=rng.randint(2, 8)),
+                                     dict(stop_all=True, poll_at=rng.randint(2, 8))])
     if kind == "fifo" and k > 1 and rng.random() < 0.5:
         one = rng.choice(["min", "max"])
         spec["mode"] = [one] * k
@@ -1283,8 +1339,9 @@ def run_whole(ctx, spec):
     names, mode = spec["names"], spec["mode"]
     with quiet() as out:
         inner, limit_attr = build_scheduler(spec)
-        sched = cls.RecordingScheduler(inner)
-        backend = cls.ScriptedBackend(spec["scripts"], spec["chunks"], spec["outcomes"], limit_attr)
+        sched = cls.RecordingScheduler(inner, (spec.get("faults") or {}).get("suggest_at"))
+        backend = cls.ScriptedBackend([[cast_result(r, spec.get("dtypes")) for r in sc] for sc in spec["scripts"]],
+                                         spec["chunks"], spec["outcomes"], limit_attr, spec.get("faults"))
         store, rec = RecordingStore(add_wallclock_time=True), cls.Recorder()
 
         def stop(status):
@@ -1353,7 +1410,8 @@ def run_resumed(ctx, spec):
         with quiet() as out:
             inner, limit_attr = build_scheduler(spec)
             sched = cls.RecordingScheduler(inner)
-            backend = cls.ScriptedBackend(spec["scripts"], spec["chunks"], spec["outcomes"], limit_attr)
+            backend = cls.ScriptedBackend([[cast_result(r, spec.get("dtypes")) for r in sc] for sc in spec["scripts"]],
+                                         spec["chunks"], spec["outcomes"], limit_attr, spec.get("faults"))
             store, rec = RecordingStore(add_wallclock_time=True), cls.Recorder()
             tuner = Tuner(trial_backend=backend, scheduler=sched,
                           stop_criterion=cls.StopAfter(spec["max_results"], spec["max_loops"]),
@@ -1413,6 +1471,7 @@ def run_cases(ctx, replay, corpus_only=False):
         specs = [gen_run_spec(rng, i) for i in range(ctx.n(60, 800))]
         for i in range(ctx.n(24, 300)):  # runs that are interrupted, loaded back (Tuner.load) and continued
             sp = gen_run_spec(rng, 10000 + i)
+            sp.pop("faults", None)
             sp.update(resume=rng.choice(["same", "moved", "moved"]), more_results=rng.randint(2, 15),
                       max_results=rng.randint(2, 10), rui=rng.choice([0, 10.0, 10.0, -1]))
             specs.append(sp)
@@ -1423,6 +1482,12 @@ def run_cases(ctx, replay, corpus_only=False):
         shutil.rmtree(os.path.join(_TMP_ROOT, spec["name"]), ignore_errors=True)
         sched = spec["kind"]
         split = obs.get("split")
+        err = obs.get("run_error")
+        expected_fault = bool(spec.get("faults")) and err is not None and "injected fault" in err["message"]
+        ctx.h("run_injected_fault", "none" if not spec.get("faults") else
+              "%s -> %s" % ("+".join(sorted(spec["faults"])), err["raised"] if err else "run ended normally"))
+        for dt in (spec.get("dtypes") or {}).values():
+            ctx.h("run_value_type", dt)
         if spec.get("resume"):
             ctx.h("run_resume", "%s, rows before/after: %s" % (
                 spec["resume"], "both" if 0 < (split or 0) < len(obs["deliveries"]) else
@@ -1450,7 +1515,8 @@ def run_cases(ctx, replay, corpus_only=False):
                         obs["df"] if experiments_module(ctx) is not None else SKIP_DISK,
                         obs["handed"], obs["overall"], obs["per_trial"], spec["names"], spec["mode"], obs["bq"],
                         obs["tq"], obs["table"], obs["eqs"], sched=sched, summaries=obs["summaries"],
-                        run_error=obs["run_error"], boundaries=() if split is None else (split,))
+                        run_error=None if expected_fault else obs["run_error"],
+                        boundaries=() if split is None else (split,))
         ctx.h("run_first_metric_never_numeric",
               bool(obs["handed"]) and not any(isinstance(plain(r.get(spec["names"][0])), numbers.Number)
                                               for _, r in obs["handed"]))
@@ -1534,6 +1600,8 @@ def seq_cases(ctx, replay):
         ctx.h("seq_rui", spec["rui"])
         for s in spec["styles"]:
             ctx.h("seq_metric_style", s)
+        for dt in (spec.get("dtypes") or {}).values():
+            ctx.h("seq_value_type", dt)
         ctx.h("seq_undelivered", sum(1 for op in spec["ops"] for r in op["results"] if r[2] is None) > 0)
         ctx.h("seq_trials_without_results", sum(1 for s in obs["per_trial"].values() if s["count"] == 0) > 0)
         property_checks(ctx, case, "seq", obs["deliveries"], obs["rows"], spec["wallclock"], obs["df"], obs["handed"],
